@@ -735,11 +735,14 @@ BY_NAME = {t.name: t for t in TYPES}
 def _value_case(t, v, tl):
     line = "enc.%s.to_bytes\t%s\t%s" % (t.name, "\t".join(t.args(v)), hx(tl))
     cons = t.constructible(v)
-    meta = {"k": "val", "t": t.name, "cons": cons, "tail": len(tl)}
+    # "head": the value part of the line; the generic shrinker may only shorten the tail
+    meta = {"k": "val", "t": t.name, "cons": cons, "head": line.rsplit("\t", 1)[0]}
     if cons:
         meta["hlen"] = t.hlen(v)
-        meta["wf"] = bool(t.wf(v, tl))
-        if meta["wf"]:
+        # well-formedness may depend on whether a tail follows (ICMPv4 timestamp, IGMP query)
+        meta["wf0"] = bool(t.wf(v, b""))
+        meta["wf1"] = bool(t.wf(v, b"x"))
+        if meta["wf0"] or meta["wf1"]:
             meta["expect"] = t.fields(v)
     return Case([line], meta)
 
@@ -772,10 +775,10 @@ def generate(rng, tier):
     for cap in list(range(0, 24)) + [64, 1500]:
         for _ in range(3):
             v = e.gen(rng)
-            yield Case(["enc.eth2.wslice\t%s\t%d" % ("\t".join(e.args(v)), cap)], {"k": "wslice", "t": "eth2", "cap": cap, "hlen": 14})
+            yield Case(["enc.eth2.wslice\t%s\t%d" % ("\t".join(e.args(v)), cap)], {"k": "wslice", "t": "eth2", "cap": cap, "hlen": 14, "line": "enc.eth2.wslice\t%s\t%d" % ("\t".join(e.args(v)), cap)})
             v = s.gen(rng)
             if s.constructible(v):
-                yield Case(["enc.sll.wslice\t%s\t%d" % ("\t".join(s.args(v)), cap)], {"k": "wslice", "t": "sll", "cap": cap, "hlen": 16})
+                yield Case(["enc.sll.wslice\t%s\t%d" % ("\t".join(s.args(v)), cap)], {"k": "wslice", "t": "sll", "cap": cap, "hlen": 16, "line": "enc.sll.wslice\t%s\t%d" % ("\t".join(s.args(v)), cap)})
 
 
 def is_trivial(c):
@@ -796,6 +799,8 @@ def oracle(c):
     k = c.meta.get("k")
     o = c.impl[0]
     try:
+        if k == "val" and c.lines[0].rsplit("\t", 1)[0] != c.meta["head"]:
+            return []  # a shrinking candidate that altered the value itself: meta no longer describes it
         if o is None or o in ("panic", "bad-op") or o.startswith("fault("):
             return [("no-result", {"impl": o})]
         if k == "val":
@@ -815,8 +820,10 @@ def oracle(c):
                 out.append(("serialisers-differ", {"to_bytes": m.group(1), "write_to_slice": m.group(3)}))
             if len(b) != int(m.group(4)) or len(b) != c.meta["hlen"]:
                 out.append(("header-len", {"to_bytes_len": len(b), "header_len": int(m.group(4)), "expected": c.meta["hlen"]}))
-            if c.meta["wf"]:
-                want = "ok(%s,rest=(%d,%d))" % (c.meta["expect"], c.meta["hlen"], c.meta["tail"])
+            tl = c.lines[0].rsplit("\t", 1)[1]
+            ntail = 0 if tl == "-" else len(tl) // 2
+            if c.meta["wf1"] if ntail else c.meta["wf0"]:
+                want = "ok(%s,rest=(%d,%d))" % (c.meta["expect"], c.meta["hlen"], ntail)
                 if m.group(5) != want:
                     out.append(("decode-of-encode", {"got": m.group(5)[:400], "want": want[:400]}))
         elif k == "bytes":
@@ -825,7 +832,7 @@ def oracle(c):
             m = _FROM.match(o)
             if not m:
                 return [("malformed-impl-output", {"impl": o[:300]})]
-            data = _unhex(c.meta["data"])
+            data = _unhex(c.lines[0].split("\t")[1])
             off, rl = int(m.group(2)), int(m.group(3))
             re_ = _unhex(m.group(4))
             if off + rl != len(data):
@@ -841,6 +848,8 @@ def oracle(c):
             if m.group(5) != "same":
                 out.append(("second-decode-differs", {"again": m.group(5)[:400], "first": m.group(1)[:400]}))
         elif k == "wslice":
+            if c.lines[0] != c.meta["line"]:
+                return []
             cap, hl = c.meta["cap"], c.meta["hlen"]
             if cap < hl:
                 if not o.startswith("err(space(req=%d,len=%d," % (hl, cap)):
